@@ -68,6 +68,14 @@ func (c *Ctx) pickRecord(cfg val.GenCfg) *pick {
 			vcfg.Ladder = 0
 			vcfg.LongProb = 0
 			c.Count("deep_values", 1)
+			if c.R.Chance(1, 3) {
+				// VERY deep and narrow: a spine of 24..40 nested records (work that doubles
+				// per level shows only here), a few hundred records in all
+				vcfg.MaxDepth = c.R.Range(24, 40)
+				vcfg.MaxNodes = 120
+				vcfg.FullMsg = 100
+				c.Count("very_deep_values", 1)
+			}
 		}
 		g := val.NewGen(b.Schema, c.R.Fork("value"), vcfg)
 		if !g.Inhabited(d.Name) {
